@@ -11,7 +11,7 @@ fn cluster(w: u8, i: usize) -> char { match w { 0 => ['\u{200b}', '\u{2060}', '\
 pub fn run(seed: u64, tier: &str, out: &mut Out) {
     let mut rng = Rng::new(seed);
     let n = if tier == "thorough" { 50_000 } else { 2_000 };
-    let fx = std::env::var("VERIF_FX").unwrap_or_default();
+    let fx = crate::common::fx("style");
     for _ in 0..n {
         let k = rng.range(1, 3);
         let mut ops = Vec::new();
